@@ -52,7 +52,7 @@ def main():
         for mut in sorted(os.listdir(os.path.join(sd, prop))):
             mid = "%s/%s" % (prop, mut)
             patch = os.path.join(sd, prop, mut, "patch.diff")
-            if not os.path.exists(patch) or (a.only and not mid.startswith(a.only)):
+            if not os.path.exists(patch) or (a.only and not (mid == a.only or mid.startswith(a.only.rstrip("/") + "/"))):
                 continue
             if not a.redo and a.tier in results.get(mid, {}):
                 continue
